@@ -157,6 +157,8 @@ def run_script(inputs, script, use_backups=False, batch_size=None, return_stats=
             for f in rec.futs:
                 if not f.done():
                     f.cancel()
+                elif not f.cancelled():
+                    f.exception()       # mark as retrieved (no "exception was never retrieved" noise)
             loop.run_until_complete(asyncio.sleep(0))
         except Exception:
             pass
